@@ -16,6 +16,38 @@ def actionName : Bulk.Action → String
   | .create => "CREATE_TRANSACTION" | .addMeta => "ADD_METADATA" | .revert => "REVERT_TRANSACTION"
   | .delMeta => "DELETE_METADATA" | .unknown => "?"
 
+/-- the body shape behind the harness's name for it (`harness/bulk.go: bulkData`) -/
+def body (s : String) : Bulk.Body :=
+  match s with
+  | "script" | "script_vars" => .script
+  | "script_broken" | "script_novars" => .scriptBroken
+  | "both" | "both_broken" => .both
+  | "neither" | "empty_postings" | "script_empty" => .neither
+  | "null" => .null
+  | "nodata" => .noData
+  | "wrongshape" => .wrongShape
+  | "badfield" | "postings_badamount" => .badField
+  | "notarget" => .noTarget
+  | "tx_strid" | "tx_fracid" => .txIdNotNumber
+  | "acct_numid" | "acct_objid" | "acct_emptyid" | "tx_nullid" | "tx_negid" | "tx_bigid" | "unknown_target" | "lower_target"
+  | "no_targettype" => .looseId
+  | "strid" | "fracid" => .idNotNumber
+  | "noid" => .noId
+  | "force_str" => .flagNotBool
+  | _ => .other            -- "good", "force", "at_effective"
+
+/-- the error value the scripted backend returns for an outcome name, as the handlers' predicates see it
+(`harness/bulk.go: scriptedError` builds it from the constructors of internal/engine and internal/engine/command) -/
+def scripted (s : String) : Bulk.Ans :=
+  match s with
+  | "ok" | "" => .ok
+  | "insufficient" => .err ⟨true, true, false, false⟩        -- commandError(errMachine(ErrInsufficientFund))
+  | "insufficient_raw" => .err ⟨true, false, false, false⟩   -- the same error not wrapped by engine.Ledger
+  | "save_notfound" => .err ⟨false, true, true, false⟩       -- commandError(errSaveMeta TRANSACTION_NOT_FOUND)
+  | "del_notfound" => .err ⟨false, true, false, true⟩        -- commandError(errDeleteMeta TRANSACTION_NOT_FOUND)
+  | "internal" | "storage" => .err ⟨false, false, false, false⟩
+  | _ => .err Bulk.BErr.plainCommand   -- validation, notfound, machine, conflict, nopostings, noscript, compilation, revert_*
+
 def handle : Handler := fun j => do
   let cont0 ← getBool j "cont"
   -- the flag as spelled on the wire, when the input gives a spelling ("<bare>" = the parameter without a value)
@@ -24,18 +56,20 @@ def handle : Handler := fun j => do
     | none => cont0
   if (getBool j "broken").toOption.getD false then
     -- glue: a body that is not JSON never reaches ProcessBulk; bulkHandler answers 400 with no results
-    return Json.mkObj [("status", toJson (400 : Nat)), ("results", Json.arr #[]), ("calls", Json.arr #[])]
+    return Json.mkObj [("status", toJson (400 : Nat)), ("results", Json.arr #[]), ("calls", Json.arr #[]), ("codes", Json.arr #[])]
   let es ← getArr j "elems"
   let elems ← es.mapM (fun e => do
-    let a ← getStr e "action"
-    let d ← getStr e "data"
+    let a := action (← getStr e "action")
+    let b := body (← getStr e "data")
     let o ← getStr e "outcome"
-    pure ((⟨action a, d == "good"⟩ : Bulk.Elem), o == "ok"))
-  let oks := elems.map (·.2)
-  let out := Bulk.processBulk (fun i => oks.getD i true) cont (elems.map (·.1))
+    pure ((⟨a, Bulk.decodes a b⟩ : Bulk.Elem), Bulk.engineAns a b (scripted o)))
+  let answers := elems.map (·.2)
+  let back : Nat → Bulk.Ans := fun i => answers.getD i .ok
+  let out := Bulk.processBulk (fun i => (back i).isOk) cont (elems.map (·.1))
   pure <| Json.mkObj [
     ("status", toJson (Bulk.status out)),
     ("results", jList (fun r => match r with | .ok a => Json.str (actionName a) | .err => Json.str "ERROR") out.results),
+    ("codes", jList (fun (c : String) => Json.str c) (Bulk.goCodes back cont 0 (elems.map (·.1)))),
     ("calls", jList (fun (c : Nat) => toJson c) out.calls)]
 
 end Driver.BulkD
